@@ -49,6 +49,10 @@ type Decl struct {
 	SetVar  map[int]bool       // set k is a package-level variable (true) or inline kessoku.Set(...) (false)
 	SetNest map[int]int        // set k is nested in set SetNest[k] (0 = top level)
 	Note    string             // how this declaration was derived (base shape + variant)
+	// Prelude places another, trivial injector ("Pre", taking context.Context) before this one in the
+	// same file, so that the shared name allocator has already handed out ctx, and this injector's
+	// context parameter is called ctx0 ("several injectors per file").
+	Prelude string
 }
 
 func (d *Decl) Spec() string {
@@ -102,6 +106,9 @@ func (d *Decl) Spec() string {
 			}
 			sb.WriteString("}")
 		}
+	}
+	if d.Prelude != "" {
+		sb.WriteString(" ; prelude=" + d.Prelude)
 	}
 	for k, v := range d.SetVar {
 		if v {
@@ -266,7 +273,9 @@ func Reference(d *Decl) *Ref {
 	var cyc []string
 	var visitType func(t string) bool
 	var visitProv func(p *Prov) bool
+	usedTypes := map[string]bool{}
 	visitType = func(t string) bool {
+		usedTypes[t] = true
 		s, ok := sup[t]
 		if !ok {
 			if t == "ctx" {
@@ -328,7 +337,7 @@ func Reference(d *Decl) *Ref {
 				n++
 			}
 		}
-		if n >= 2 {
+		if n >= 2 || usedTypes[t] {
 			dupNeeded = true
 		}
 	}
